@@ -3,6 +3,8 @@ package main
 // Streams `quorum` (C11) and `enc` (C32).
 
 import (
+	. "verifharness/hlib"
+
 	"bufio"
 	"bytes"
 	"fmt"
@@ -17,8 +19,8 @@ import (
 )
 
 func init() {
-	register("quorum", &Stream{Gen: genQuorum, NewRunner: func() Runner { return &quorumRunner{} }})
-	register("enc", &Stream{Gen: genEnc, NewRunner: func() Runner { return RunnerFunc(encStep) }})
+	Register("quorum", &Stream{Gen: genQuorum, NewRunner: func() Runner { return &quorumRunner{} }})
+	Register("enc", &Stream{Gen: genEnc, NewRunner: func() Runner { return RunnerFunc(encStep) }})
 }
 
 // ---------------------------------------------------------------------------------------------
@@ -30,13 +32,13 @@ type quorumRunner struct {
 }
 
 func (q *quorumRunner) Step(line string) string {
-	f := fields(line)
+	f := Fields(line)
 	switch f[0] {
 	case "vals":
 		b := pos.NewBuilder()
 		for _, p := range f[1:] {
 			kv := strings.Split(p, ":")
-			b.Set(idx.ValidatorID(atou(kv[0])), pos.Weight(atou(kv[1])))
+			b.Set(idx.ValidatorID(Atou(kv[0])), pos.Weight(Atou(kv[1])))
 		}
 		q.vv = nil
 		q.cnt = nil
@@ -48,20 +50,20 @@ func (q *quorumRunner) Step(line string) string {
 		if q.cnt == nil {
 			return "novals"
 		}
-		ok := q.cnt.Count(idx.ValidatorID(atou(f[1])))
-		return fmt.Sprintf("%s sum=%d hq=%s", b2s(ok), q.cnt.Sum(), b2s(q.cnt.HasQuorum()))
+		ok := q.cnt.Count(idx.ValidatorID(Atou(f[1])))
+		return fmt.Sprintf("%s sum=%d hq=%s", B2s(ok), q.cnt.Sum(), B2s(q.cnt.HasQuorum()))
 	case "countidx":
 		if q.cnt == nil {
 			return "novals"
 		}
-		ok := q.cnt.CountByIdx(idx.Validator(atou(f[1])))
-		return fmt.Sprintf("%s sum=%d hq=%s", b2s(ok), q.cnt.Sum(), b2s(q.cnt.HasQuorum()))
+		ok := q.cnt.CountByIdx(idx.Validator(Atou(f[1])))
+		return fmt.Sprintf("%s sum=%d hq=%s", B2s(ok), q.cnt.Sum(), B2s(q.cnt.HasQuorum()))
 	case "newcounter":
 		if q.vv == nil {
 			return "novals"
 		}
 		q.cnt = q.vv.NewCounter()
-		return fmt.Sprintf("sum=%d hq=%s", q.cnt.Sum(), b2s(q.cnt.HasQuorum()))
+		return fmt.Sprintf("sum=%d hq=%s", q.cnt.Sum(), B2s(q.cnt.HasQuorum()))
 	}
 	return "bad-op"
 }
@@ -174,59 +176,59 @@ func mkID(epoch, lamport uint64, tail []byte) hash.Event {
 }
 
 func encStep(line string) string {
-	f := fields(line)
+	f := Fields(line)
 	switch f[0] {
 	case "be16":
-		b := bigendian.Uint16ToBytes(uint16(atou(f[1])))
-		return fmt.Sprintf("%s %d", hexOf(b), bigendian.BytesToUint16(b))
+		b := bigendian.Uint16ToBytes(uint16(Atou(f[1])))
+		return fmt.Sprintf("%s %d", HexOf(b), bigendian.BytesToUint16(b))
 	case "be32":
-		b := bigendian.Uint32ToBytes(uint32(atou(f[1])))
-		return fmt.Sprintf("%s %d", hexOf(b), bigendian.BytesToUint32(b))
+		b := bigendian.Uint32ToBytes(uint32(Atou(f[1])))
+		return fmt.Sprintf("%s %d", HexOf(b), bigendian.BytesToUint32(b))
 	case "be64":
-		b := bigendian.Uint64ToBytes(atou(f[1]))
-		return fmt.Sprintf("%s %d", hexOf(b), bigendian.BytesToUint64(b))
+		b := bigendian.Uint64ToBytes(Atou(f[1]))
+		return fmt.Sprintf("%s %d", HexOf(b), bigendian.BytesToUint64(b))
 	case "le16":
-		b := littleendian.Uint16ToBytes(uint16(atou(f[1])))
-		return fmt.Sprintf("%s %d", hexOf(b), littleendian.BytesToUint16(b))
+		b := littleendian.Uint16ToBytes(uint16(Atou(f[1])))
+		return fmt.Sprintf("%s %d", HexOf(b), littleendian.BytesToUint16(b))
 	case "le32":
-		b := littleendian.Uint32ToBytes(uint32(atou(f[1])))
-		return fmt.Sprintf("%s %d", hexOf(b), littleendian.BytesToUint32(b))
+		b := littleendian.Uint32ToBytes(uint32(Atou(f[1])))
+		return fmt.Sprintf("%s %d", HexOf(b), littleendian.BytesToUint32(b))
 	case "le64":
-		b := littleendian.Uint64ToBytes(atou(f[1]))
-		return fmt.Sprintf("%s %d", hexOf(b), littleendian.BytesToUint64(b))
+		b := littleendian.Uint64ToBytes(Atou(f[1]))
+		return fmt.Sprintf("%s %d", HexOf(b), littleendian.BytesToUint64(b))
 	case "cmp16":
-		return sign(bytes.Compare(bigendian.Uint16ToBytes(uint16(atou(f[1]))), bigendian.Uint16ToBytes(uint16(atou(f[2])))))
+		return sign(bytes.Compare(bigendian.Uint16ToBytes(uint16(Atou(f[1]))), bigendian.Uint16ToBytes(uint16(Atou(f[2])))))
 	case "cmp32":
-		return sign(bytes.Compare(bigendian.Uint32ToBytes(uint32(atou(f[1]))), bigendian.Uint32ToBytes(uint32(atou(f[2])))))
+		return sign(bytes.Compare(bigendian.Uint32ToBytes(uint32(Atou(f[1]))), bigendian.Uint32ToBytes(uint32(Atou(f[2])))))
 	case "cmp64":
-		return sign(bytes.Compare(bigendian.Uint64ToBytes(atou(f[1])), bigendian.Uint64ToBytes(atou(f[2]))))
+		return sign(bytes.Compare(bigendian.Uint64ToBytes(Atou(f[1])), bigendian.Uint64ToBytes(Atou(f[2]))))
 	case "idx":
-		n := atou(f[2])
+		n := Atou(f[2])
 		switch f[1] {
 		case "epoch":
 			b := idx.Epoch(n).Bytes()
-			return fmt.Sprintf("%s %d", hexOf(b), idx.BytesToEpoch(b))
+			return fmt.Sprintf("%s %d", HexOf(b), idx.BytesToEpoch(b))
 		case "event":
 			b := idx.Event(n).Bytes()
-			return fmt.Sprintf("%s %d", hexOf(b), idx.BytesToEvent(b))
+			return fmt.Sprintf("%s %d", HexOf(b), idx.BytesToEvent(b))
 		case "block":
 			b := idx.Block(n).Bytes()
-			return fmt.Sprintf("%s %d", hexOf(b), idx.BytesToBlock(b))
+			return fmt.Sprintf("%s %d", HexOf(b), idx.BytesToBlock(b))
 		case "lamport":
 			b := idx.Lamport(n).Bytes()
-			return fmt.Sprintf("%s %d", hexOf(b), idx.BytesToLamport(b))
+			return fmt.Sprintf("%s %d", HexOf(b), idx.BytesToLamport(b))
 		case "frame":
 			b := idx.Frame(n).Bytes()
-			return fmt.Sprintf("%s %d", hexOf(b), idx.BytesToFrame(b))
+			return fmt.Sprintf("%s %d", HexOf(b), idx.BytesToFrame(b))
 		case "pack":
 			b := idx.Pack(n).Bytes()
-			return fmt.Sprintf("%s %d", hexOf(b), idx.BytesToPack(b))
+			return fmt.Sprintf("%s %d", HexOf(b), idx.BytesToPack(b))
 		case "validatorid":
 			b := idx.ValidatorID(n).Bytes()
-			return fmt.Sprintf("%s %d", hexOf(b), idx.BytesToValidatorID(b))
+			return fmt.Sprintf("%s %d", HexOf(b), idx.BytesToValidatorID(b))
 		}
 	case "idxcmp":
-		a, b := atou(f[2]), atou(f[3])
+		a, b := Atou(f[2]), Atou(f[3])
 		switch f[1] {
 		case "epoch":
 			return sign(bytes.Compare(idx.Epoch(a).Bytes(), idx.Epoch(b).Bytes()))
@@ -244,19 +246,19 @@ func encStep(line string) string {
 			return sign(bytes.Compare(idx.ValidatorID(a).Bytes(), idx.ValidatorID(b).Bytes()))
 		}
 	case "id": // id epoch lamport tailhex  (SetID path)
-		id := mkID(atou(f[1]), atou(f[2]), unhex(f[3]))
-		return fmt.Sprintf("%s %d %d", hexOf(id.Bytes()), id.Epoch(), id.Lamport())
+		id := mkID(Atou(f[1]), Atou(f[2]), Unhex(f[3]))
+		return fmt.Sprintf("%s %d %d", HexOf(id.Bytes()), id.Epoch(), id.Lamport())
 	case "idbuild": // Build path
 		var e dag.MutableBaseEvent
-		e.SetEpoch(idx.Epoch(atou(f[1])))
-		e.SetLamport(idx.Lamport(atou(f[2])))
+		e.SetEpoch(idx.Epoch(Atou(f[1])))
+		e.SetLamport(idx.Lamport(Atou(f[2])))
 		var t [24]byte
-		copy(t[:], unhex(f[3]))
+		copy(t[:], Unhex(f[3]))
 		id := e.Build(t).ID()
-		return fmt.Sprintf("%s %d %d", hexOf(id.Bytes()), id.Epoch(), id.Lamport())
+		return fmt.Sprintf("%s %d %d", HexOf(id.Bytes()), id.Epoch(), id.Lamport())
 	case "idcmp":
-		a := mkID(atou(f[1]), atou(f[2]), unhex(f[3]))
-		b := mkID(atou(f[4]), atou(f[5]), unhex(f[6]))
+		a := mkID(Atou(f[1]), Atou(f[2]), Unhex(f[3]))
+		b := mkID(Atou(f[4]), Atou(f[5]), Unhex(f[6]))
 		return sign(bytes.Compare(a.Bytes(), b.Bytes()))
 	}
 	return "bad-op"
@@ -270,7 +272,7 @@ func genEnc(r *Rand, n int, tier string, w *bufio.Writer) {
 		for i := range b {
 			b[i] = byte(r.Pick(0, 1, 0xfe, 0xff, uint64(r.Intn(256))))
 		}
-		return hexOf(b)
+		return HexOf(b)
 	}
 	v := func(bits uint) uint64 {
 		return r.Around(bits, 0, 1, 255, 256, 257, 65535, 65536, 1<<24, 1<<31-1, 1<<31, 1<<32-1, 1<<32, 1<<56, 1<<63, 1<<64-1)
